@@ -30,6 +30,54 @@ def _one(fn, prefix):
     return lits[0]
 
 
+def _batch_rand():
+    """the statement `rand = …` of `ssa.assert_batch_as_valid_`, as Lean text over (`i`, `draw`), and the argument of the one
+    `secrets.randbelow(…)` call in it as Lean text over `n` (= `ec.n`).  Any other shape is refused: the obligation
+    `Props.C03.coefficient_derivation` is about exactly this expression."""
+    tree = ast.parse(inspect.getsource(ssa.assert_batch_as_valid_))
+    hits = [n for n in ast.walk(tree) if isinstance(n, ast.Assign) and len(n.targets) == 1
+            and isinstance(n.targets[0], ast.Name) and n.targets[0].id == "rand"]
+    if len(hits) != 1:
+        raise ValueError(f"assert_batch_as_valid_: expected one assignment to `rand`, found {len(hits)}")
+    bounds = []
+
+    def bound(e):
+        if isinstance(e, ast.Attribute) and isinstance(e.value, ast.Name) and (e.value.id, e.attr) == ("ec", "n"):
+            return "n"
+        if isinstance(e, ast.Constant) and isinstance(e.value, int) and not isinstance(e.value, bool):
+            return str(e.value)
+        if isinstance(e, ast.BinOp) and isinstance(e.op, (ast.Add, ast.Sub)):
+            return f"({bound(e.left)} {'+' if isinstance(e.op, ast.Add) else '-'} {bound(e.right)})"
+        raise ValueError(f"assert_batch_as_valid_: unsupported bound of randbelow: {ast.unparse(e)}")
+
+    def expr(e):
+        if isinstance(e, ast.Name) and e.id == "i":
+            return "i"
+        if isinstance(e, ast.Constant) and isinstance(e.value, int) and not isinstance(e.value, bool):
+            return str(e.value)
+        if isinstance(e, ast.BinOp) and isinstance(e.op, (ast.Add, ast.Sub, ast.Mult)):
+            op = {ast.Add: "+", ast.Sub: "-", ast.Mult: "*"}[type(e.op)]
+            return f"({expr(e.left)} {op} {expr(e.right)})"
+        if isinstance(e, ast.IfExp):
+            return f"(if {cond(e.test)} then {expr(e.body)} else {expr(e.orelse)})"
+        if (isinstance(e, ast.Call) and ast.unparse(e.func) == "secrets.randbelow" and len(e.args) == 1 and not e.keywords):
+            bounds.append(bound(e.args[0]))
+            return "draw"
+        raise ValueError(f"assert_batch_as_valid_: unsupported coefficient expression: {ast.unparse(e)}")
+
+    def cond(t):
+        if isinstance(t, ast.Compare) and len(t.ops) == 1 and len(t.comparators) == 1:
+            ops = {ast.Eq: "=", ast.NotEq: "≠", ast.Lt: "<", ast.LtE: "≤", ast.Gt: ">", ast.GtE: "≥"}
+            if type(t.ops[0]) in ops:
+                return f"({expr(t.left)} {ops[type(t.ops[0])]} {expr(t.comparators[0])})"
+        raise ValueError(f"assert_batch_as_valid_: unsupported condition: {ast.unparse(t)}")
+
+    body = expr(hits[0].value)
+    if len(bounds) != 1:
+        raise ValueError(f"assert_batch_as_valid_: expected one secrets.randbelow call in `rand = …`, found {len(bounds)}")
+    return ast.unparse(hits[0]), body, bounds[0]
+
+
 def constants():
     # the three BIP340 tags, read off the functions that use them
     nonce_lits = [b for b in _bytes_literals(bip340_nonce._bip340_nonce_) if b.startswith(b"BIP0340/")]
@@ -58,6 +106,12 @@ def constants():
     txt += "/-- sizes of the curve `Sig.parse` reads (`ec = secp256k1` in its body) -/\n"
     txt += f"def PARSE_P_SIZE : Nat := {ssa.secp256k1.p_size}\n"
     txt += f"def PARSE_N_SIZE : Nat := {ssa.secp256k1.n_size}\n"
+    src, body, bnd = _batch_rand()
+    txt += f"/-- `{src}` in `ssa.assert_batch_as_valid_` (member index `i`), with the outcome of the one\n"
+    txt += "    `secrets.randbelow(…)` call an explicit argument `draw` -/\n"
+    txt += f"def batch_rand (i : Int) (draw : Int) : Int := {body}\n"
+    txt += "/-- the argument of that `secrets.randbelow` call (`n` is `ec.n`): `draw` ranges over `0 .. bound-1` -/\n"
+    txt += f"def batch_randbelow_bound (n : Int) : Int := {bnd}\n"
     return txt
 
 
